@@ -212,7 +212,14 @@ def check_two_level(ctx, case):
     CV, E, C, DV, D = [asm.cls_by_name("kit:" + n) for n in case["names"]]
 
     def rec(word, rid):
-        return impl.CircularRecord(impl.Seq(word), id=rid, name=rid)
+        r = impl.CircularRecord(impl.Seq(word), id=rid, name=rid)
+        if case.get("cited"):
+            # documented inputs: a reference and small cited features all along the record (those inside the kept
+            # stretch travel with the product into the next level)
+            r.annotations["references"] = [impl.mk_ref(300 + (sum(map(ord, rid)) % 7))]
+            for p in range(0, len(word) - 1, 3):
+                r.features.append(impl.mk_feature(impl.Feat(1, "u7", ("i1",), ((p, p + 1, 1),))))
+        return r
     prods = []
     with warnings.catch_warnings():
         warnings.simplefilter("ignore")
@@ -267,6 +274,7 @@ def run(ctx):
                 ctx.note("two-level-build-failed:" + kit)
                 continue
             c2["swap"] = rng.random() < 0.5
+            c2["cited"] = rng.random() < 0.4
             ctx.guard(check_two_level, c2)
             made += 1
             if made >= ctx.budget(40, 1500):
